@@ -113,6 +113,10 @@ where
     // due to a previous runge-kutta step
     yield_memory: usize,
 
+    // Set when the runge-kutta steps are handed over without an adams step confirming them
+    // (the interval ended first), so that no adams step is yielded after them
+    skip_sentinel: bool,
+
     _lifetime: PhantomData<&'a ()>,
 }
 
@@ -348,6 +352,7 @@ where
                 four,
                 order,
                 yield_memory: 0,
+                skip_sentinel: false,
                 _lifetime: PhantomData,
             },
             finished: false,
@@ -456,10 +461,19 @@ where
             // set yield_memory to the sentinel value O+1 so that the next step() call
             // will yield the value in self.state (the adams step that was within
             // tolerance after these runge-kutta steps)
+            let item = self.prev_values[get_item].clone();
             if self.yield_memory == 0 {
-                self.yield_memory = O + 1;
+                if self.skip_sentinel {
+                    // Unconfirmed runge-kutta steps at the end of the interval: there is no
+                    // adams step to yield, carry on from the last runge-kutta step.
+                    self.skip_sentinel = false;
+                    self.prev_values.clear();
+                    self.prev_derivatives.clear();
+                } else {
+                    self.yield_memory = O + 1;
+                }
             }
-            return Ok(self.prev_values[get_item].clone());
+            return Ok(item);
         }
 
         // Sentinel value to signify that the runge-kutta steps are yielded
@@ -473,6 +487,15 @@ where
                 .push_back((self.time.real(), self.state.clone()));
             self.prev_values.pop_front();
             return Ok((self.time.real(), self.state.clone()));
+        }
+
+        // The runge-kutta steps reached the end of the interval (or are within one step of it)
+        // before an adams step could confirm them. Hand them over as they are instead of
+        // dropping them: like the final step below, they are accepted unverified.
+        if self.yield_memory == O && self.time.real() + self.dt.real() >= self.end.real() {
+            self.yield_memory = O - 1;
+            self.skip_sentinel = true;
+            return Err(IVPStatus::Redo);
         }
 
         if self.time.real() >= self.end.real() {
@@ -490,7 +513,9 @@ where
             if self.time.real() + self.dt.real() * (self.order - Self::Field::one()).real()
                 >= self.end.real()
             {
-                self.dt = (self.end - self.time) / (self.order - Self::Field::one());
+                // Leave room for the final step, which lands exactly on the end: O - 1 steps of
+                // (end - time) / (O - 1) can overshoot the end by rounding.
+                self.dt = (self.end - self.time) / self.order;
             }
             self.runge_kutta(O - 1)?;
             self.yield_memory = O;
@@ -575,6 +600,7 @@ where
             // We took Order - 1 runge kutta steps at this dt
             self.time -= self.dt * (self.order - Self::Field::one());
             self.state = self.save_state.clone();
+            self.yield_memory = 0;
         }
 
         let q = (self.tolerance.real() / (self.two.real() * error.real()))
